@@ -76,7 +76,7 @@ def ensure_sg(quiet=True):
 # ---------------------------------------------------------------------------------------------
 # Drivers.  name -> dict(src=[...], kind="cxx"|"smpicxx"|"c"|"fuzz", flags="", libs="")
 INC = f"-I{REPO}/include -I{REPO}/src -I{REPO} -I{SG}/include -I{SG} -I{SG}/src"
-CXXFLAGS = f"-std=gnu++17 -O1 -g1 -fno-access-control -D{GUARD} -Wno-deprecated-declarations {INC}"
+CXXFLAGS = f"-std=gnu++20 -O1 -g1 -fno-access-control -D{GUARD} -Wno-deprecated-declarations {INC}"
 LDFLAGS = f"-L{SG}/lib -Wl,-rpath,{SG}/lib -lsimgrid -lpthread"
 
 DRIVERS = {}
@@ -127,7 +127,7 @@ def _write_ninja():
     out.append("rule cc\n  command = ccache gcc -O1 -g1 -D" + GUARD + f" {INC} $flags -MD -MF $out.d -c $in -o $out\n  depfile = $out.d\n  deps = gcc\n  description = CC $out")
     out.append("rule link\n  command = g++ $in -o $out $ldflags $libs\n  description = LINK $out")
     out.append("rule linkc\n  command = gcc $in -o $out $libs\n  description = LINK $out")
-    out.append(f"rule smpicxx\n  command = {SG}/smpi_script/bin/smpicxx -std=gnu++17 -O1 -g1 -fno-access-control -D{GUARD} $flags $in -o $out $libs && touch $out\n  description = SMPICXX $out")
+    out.append(f"rule smpicxx\n  command = {SG}/smpi_script/bin/smpicxx -std=gnu++20 -O1 -g1 -fno-access-control -D{GUARD} $flags $in -o $out $libs && touch $out\n  description = SMPICXX $out")
     out.append(f"rule smpicc\n  command = {SG}/smpi_script/bin/smpicc -O1 -g1 -D{GUARD} $flags $in -o $out $libs && touch $out\n  description = SMPICC $out")
     out.append("rule fuzz\n  command = clang++ -std=gnu++17 -g -O1 -fsanitize=fuzzer,address,undefined -fno-sanitize-recover=undefined $flags $in -o $out $libs\n  description = FUZZ $out")
     lib = f"{SG}/lib/libsimgrid.so"
